@@ -31,6 +31,7 @@ import MagpyVerif.Lemmas.SegmentBS
 import MagpyVerif.Lemmas.CelAGM
 import MagpyVerif.Lemmas.KernCylinder
 import MagpyVerif.Lemmas.KernDefined
+import MagpyVerif.Lemmas.KernCylSegDisp
 namespace MagpyVerif.C15
 open MagpyVerif MagpyVerif.Kern
 
@@ -608,5 +609,63 @@ example : (cylMasks (3 / 2 : ℝ) 1 (3 / 2)).onEdge = true :=
 -- … and one on the hull but not on the edge is not, and its modulus is non-zero
 example : cylK ((1 : ℝ) + 3 / 2) 1 ≠ 0 :=
   (cylinder_edge_mask_covers_singular (3 / 2) 1 1 (by norm_num)).2.1 (by norm_num)
+/-! ### CylinderSegment: definedness of the case dispatch -/
+namespace MagpyVerif.C15
+open MagpyVerif MagpyVerif.Kern MagpyVerif.Kern.CylSeg
+
+/-- C15 (CylinderSegment): the NaN rows of the ported `BHJM_cylinder_segment`, exactly.  The dispatch table of
+`magnet_cylinder_segment_Hfield` has no entry for the case ids 111, 114, 121, 131 (`determineCases_total_partial`,
+C06); the wrapper returns a NaN row iff the field is B or H, the wrapper's own surface mask lets the observer through,
+and at one of the eight boundaries `(r_i, phi_j, z_k)` `close` (rtol = atol = 1e-12) puts the observer at the height
+`z_k` and either on the axis of a segment without bore or on the radius `r_i` in the half-plane `phi_j`. -/
+theorem cylseg_nan_rows_characterised (μ : ℝ) (S : SegSpecial) (f : Field) (x : V3 ℝ) (r1 r2 h p1 p2 : ℝ) (pol : V3 ℝ) :
+    let N := @segNormalise ℝ (realNumX μ S) x r1 r2 h p1 p2
+    let r := Real.sqrt (N.obs.x * N.obs.x + N.obs.y * N.obs.y)
+    let phi := Complex.arg ⟨N.obs.x, N.obs.y⟩
+    @bhjmCylSeg ℝ (realNumX μ S) f x r1 r2 h p1 p2 pol = none ↔
+      (f = .B ∨ f = .H) ∧ (@segMasks ℝ (realNumX μ S) r phi N.obs.z N.r1 N.r2 N.phi1 N.phi2 N.z1 N.z2).notOnSurf = true ∧
+        ∃ s ∈ List.range 8, @unhandledAt ℝ (realNumX μ S) r phi N.obs.z (@bdry ℝ N.r1 N.r2 N.phi1 N.phi2 N.z1 N.z2 s).1
+          (@bdry ℝ N.r1 N.r2 N.phi1 N.phi2 N.z1 N.z2 s).2.1 (@bdry ℝ N.r1 N.r2 N.phi1 N.phi2 N.z1 N.z2 s).2.2 = true :=
+  bhjmCylSeg_eq_none_iff μ S f x r1 r2 h p1 p2 pol
+
+/- FULL: `wrapper_never_dispatches_unhandled`: for every observer that the surface mask of `bhjmCylSeg` lets through to the
+core, none of the eight boundary evaluations yields one of the four unhandled ids
+  (∀ x dims pol, (segMasks …).notOnSurf = true → (bhjmCylSeg .H x dims pol).isSome).
+FALSE for the code as it is — `cylseg_apex_end_point_nan` and `cylseg_next_to_vertex_unhandled` below are counterexamples,
+both reproduced on the real code (NaN field).  The surface mask requires `mask_phi_in` / the 1e-14 slabs, the case
+analysis uses `close` with 1e-12 and no azimuth condition on the axis.  Proved instead: observers that `close` does not
+put on a base plane. -/
+/-- C15 (CylinderSegment), the part that holds: an observer that `close` keeps off both base planes (`|z ∓ h/2| > 1e-12·(1 +
+h/2)` in units of the outer radius) gets a row from the dispatch for every field and every polarization -/
+theorem wrapper_never_dispatches_unhandled_partial (μ : ℝ) (S : SegSpecial) (f : Field) (x : V3 ℝ) (r1 r2 h p1 p2 : ℝ)
+    (pol : V3 ℝ)
+    (hz1 : @close ℝ (realNumX μ S) (@segNormalise ℝ (realNumX μ S) x r1 r2 h p1 p2).obs.z
+      (@segNormalise ℝ (realNumX μ S) x r1 r2 h p1 p2).z1 = false)
+    (hz2 : @close ℝ (realNumX μ S) (@segNormalise ℝ (realNumX μ S) x r1 r2 h p1 p2).obs.z
+      (@segNormalise ℝ (realNumX μ S) x r1 r2 h p1 p2).z2 = false) :
+    (@bhjmCylSeg ℝ (realNumX μ S) f x r1 r2 h p1 p2 pol).isSome = true :=
+  bhjmCylSeg_isSome_of_off_planes μ S f x r1 r2 h p1 p2 pol hz1 hz2
+
+-- non-vacuity: an observer on the apex line of the wedge of counterexample A, but at its centre, gets a row
+example (μ : ℝ) (S : SegSpecial) (f : Field) (pol : V3 ℝ) :
+    (@bhjmCylSeg ℝ (realNumX μ S) f ⟨0, 0, 0⟩ 0 1 2 30 120 pol).isSome = true :=
+  wedge_centre_isSome μ S f pol
+-- the mid-plane is off both base planes of a segment of height 2
+example (μ : ℝ) (S : SegSpecial) : @close ℝ (realNumX μ S) 0 (-1) = false ∧ @close ℝ (realNumX μ S) 0 1 = false := by
+  constructor <;> simp [close, isclose, n] <;> norm_num
+
+/-- counterexample A in the user's units (reproduces on the real code: `CylinderSegment(dimension=(0,1,2,30,120)).getH((0,0,1))`
+is `[nan nan nan]`): the end point of the apex line of a wedge whose angular range does not contain the azimuth 0 -/
+theorem cylseg_apex_end_point_nan (μ : ℝ) (S : SegSpecial) (pol : V3 ℝ) :
+    @bhjmCylSeg ℝ (realNumX μ S) .H ⟨0, 0, 1⟩ 0 1 2 30 120 pol = none :=
+  apex_end_point_nan μ S pol
+
+/-- counterexample B on the normalised quantities (reproduces on the real code: `CylinderSegment(dimension=(1,2,2,0,90))
+.getH((2.000000000001, 0, 1.000000000001))` is `[nan nan nan]`): an observer `5e-13` outside a vertex passes the wrapper's
+`1e-14` slabs (not on the surface, not inside) and meets `close`'s `1e-12` at the boundary `(r2, phi1, z2)`: id 114 -/
+theorem cylseg_next_to_vertex_unhandled (μ : ℝ) (S : SegSpecial) (mag phiM thM : ℝ) :
+    (@segMasks ℝ (realNumX μ S) (1 + 5 / 10000000000000) 0 (1 + 5 / 10000000000000) (1 / 2) 1 0 1 (-1) 1).notOnSurf = true ∧
+    @segH ℝ (realNumX μ S) (1 + 5 / 10000000000000) 0 (1 + 5 / 10000000000000) (1 / 2) 1 0 1 (-1) 1 mag phiM thM = none :=
+  next_to_vertex_unhandled μ S mag phiM thM
 
 end MagpyVerif.C15
